@@ -22,6 +22,7 @@ pub fn run(name : &str, ctx : &Ctx, out : &mut Out) -> bool
         "c16_table" => c16::table(ctx, out),
         "hist" => hist::histories(ctx, out),
         "c18_shortcut" => hist::shortcut(ctx, out),
+        "replay" => hist::replay(ctx, out),
         "c17_contradiction" => hist::contradiction(ctx, out),
         "c10_clean_build" => hist::clean_build(ctx, out),
         "sched" => sched::schedules(ctx, out),
